@@ -28,6 +28,10 @@ func runC15(c *Ctx) {
 
 	r.Rule("R6-client-first-element", "the real client address is the first comma-separated element of the configured header", 1)
 	runC15R6(c, "R6-client-first-element")
+	r.Rule("R7-header-parser-only-in-reverse-proxy", "the real-client-IP header parser is installed only under reverse-proxy mode (shared with C16.R4)", 1)
+	runParserUnderFlag(c, "R7-header-parser-only-in-reverse-proxy")
+	r.Rule("R8-remote-address", "without a header parser the client address is the host part of RemoteAddr that net.ParseIP accepted", 2)
+	runRemoteIPRule(c, "R8-remote-address")
 
 	checkBypassOperand(c, "R1-query-free-match")
 	isAllowedPath := c.Fn("R2-route-predicates", "main.isAllowedPath")
@@ -654,9 +658,19 @@ func runNetSetRule(c *Ctx, rule string) {
 		key := "host-bits|" + fnKey(parse)
 		eq := false
 		for _, cl := range p.Calls() {
-			if sc := cl.C.StaticCallee(); sc != nil && sc.Name() == "Equal" {
+			if sc := cl.C.StaticCallee(); sc != nil && sc.Name() == "Equal" && len(cl.C.Args) == 2 {
 				if b, k := p.ResultTruth(cl.DV(), -1, p.End()); k && b {
-					eq = true
+					// the operands: the network's (masked) IP and the address exactly as parsed, in either order
+					ipF := c.P.Field("net.IPNet.IP")
+					isParsed := func(x walk.DV) bool { return ResultIs(p, x, pc, 0) }
+					isNetIP := func(x walk.DV) bool {
+						base, ok := walk.FieldLoadBase(p.Resolve(x).V, ipF)
+						return ok && ipF != nil && ResultIs(p, p.Op(base, p.Resolve(x)), pc, 1)
+					}
+					a0, a1 := p.Arg(cl, 0), p.Arg(cl, 1)
+					if (isParsed(a0) && isNetIP(a1)) || (isParsed(a1) && isNetIP(a0)) {
+						eq = true
+					}
 				}
 			}
 		}
@@ -666,7 +680,7 @@ func runNetSetRule(c *Ctx, rule string) {
 		if eq {
 			c.ok(rule, key, p.Exit, "ParseCIDR ok and ipNet.IP.Equal(ip)")
 		} else {
-			c.bad(rule, key, p.Exit, "a CIDR whose address has host bits set (or that failed to parse) is accepted as a trusted network", p, p.End())
+			c.bad(rule, key, p.Exit, "a CIDR is accepted without ipNet.IP having been compared equal to the address exactly as parsed (a masked copy always compares equal): entries with host bits set, or that failed to parse, become trusted networks", p, p.End())
 		}
 	})
 }
@@ -844,4 +858,98 @@ type firstElemState struct {
 	cut      bool // a first-comma cut was met (deeper in the derivation = earlier in execution)
 	subslice bool // some other sub-slice was applied after it
 	origin   walk.DV
+}
+
+// runParserUnderFlag: a real-client-IP parser — which is what lets a request header decide the trusted-IP
+// exemption — is installed only on paths where reverse-proxy mode is known to be on (C16.R4, also C15).
+func runParserUnderFlag(c *Ctx, rule string) {
+	setParser := c.Fn(rule, "(*pkg/apis/options.Options).SetRealClientIPParser")
+	optRP := c.Field(rule, "pkg/apis/options.Options.ReverseProxy")
+	if setParser == nil || optRP == nil {
+		return
+	}
+	n := 0
+	for _, cs := range c.callersOf(setParser) {
+		cs := cs
+		fn := cs.Parent()
+		key := "install-under-flag|" + fnKey(fn)
+		found := false
+		c.WalkShallow(rule, fn, func(p *walk.Path) {
+			for i, s := range p.Steps {
+				if s.In != cs.(ssa.Instruction) {
+					continue
+				}
+				found = true
+				n++
+				if fieldBoolAtom(p, i, optRP, true) {
+					c.ok(rule, key, s.In, "SetRealClientIPParser only under o.ReverseProxy==true")
+				} else {
+					c.bad(rule, key, s.In, "a real-client-IP parser is installed on a path where reverse-proxy mode is not known to be on: a client-sent header then decides the trusted-IP exemption", p, i)
+				}
+			}
+		})
+		if !found {
+			c.R.Unknown(rule, key, c.pos(cs), "call site not reached by the walker")
+		}
+	}
+	if n == 0 {
+		c.R.Unknown(rule, "install-under-flag|none", "-", "no SetRealClientIPParser call site")
+	}
+}
+
+// runRemoteIPRule: without a header parser the client address is exactly the host part of the
+// connection's RemoteAddr: getRemoteIP returns an address only as net.ParseIP(SplitHostPort(req.RemoteAddr)#0)
+// (non-nil, split error-free) and GetClientIP hands that through when no parser is configured.
+func runRemoteIPRule(c *Ctx, rule string) {
+	getRemote := c.Fn(rule, "pkg/ip.getRemoteIP")
+	getClient := c.Fn(rule, "pkg/ip.GetClientIP")
+	parseIP := c.StdFunc(rule, "net.ParseIP")
+	splitHP := c.StdFunc(rule, "net.SplitHostPort")
+	remoteF := c.P.Field("net/http.Request.RemoteAddr")
+	if getRemote == nil || getClient == nil || parseIP == nil || splitHP == nil || remoteF == nil {
+		return
+	}
+	c.Walk(rule, getRemote, func(p *walk.Path) {
+		rv, ok := p.ReturnDV(0)
+		if !ok || DefinitelyNil(p, rv, p.End()) {
+			return
+		}
+		at := p.End()
+		key := "address-origin|" + fnKey(getRemote)
+		pc, ok := extractOfCall(p, rv, 0)
+		if !ok || pc.C.StaticCallee() != parseIP {
+			c.bad(rule, key, p.Exit, "getRemoteIP returns an address that is not net.ParseIP's result: a substitute address (for example loopback for a unix-socket peer) can fall inside a trusted network", p, at)
+			return
+		}
+		sp, ok := extractOfCall(p, p.Arg(pc, 0), 0)
+		okSplit := ok && sp.C.StaticCallee() == splitHP
+		if okSplit {
+			base, isRemote := walk.FieldLoadBase(p.Resolve(p.Arg(sp, 0)).V, remoteF)
+			okSplit = isRemote && base == ssa.Value(getRemote.Params[0])
+			if nn, k := p.ResultNil(sp.DV(), 2, at); !(k && nn) {
+				okSplit = false
+			}
+		}
+		if okSplit {
+			c.ok(rule, key, p.Exit, "net.ParseIP(SplitHostPort(req.RemoteAddr)#0), split error-free")
+		} else {
+			c.bad(rule, key, p.Exit, "the parsed string is not the host part of req.RemoteAddr from an error-free SplitHostPort", p, at)
+		}
+	})
+	c.Walk(rule, getClient, func(p *walk.Path) {
+		rv, ok := p.ReturnDV(0)
+		if !ok {
+			return
+		}
+		at := p.End()
+		if isNil, k := p.Nil(walk.DV{V: getClient.Params[0]}, at); !(k && isNil) {
+			return // parser configured: C15.R6 / C16
+		}
+		key := "no-parser|" + fnKey(getClient)
+		if rc, ok := extractOfCall(p, rv, 0); ok && rc.C.StaticCallee() == getRemote && p.Resolve(p.Arg(rc, 0)).V == ssa.Value(getClient.Params[1]) {
+			c.ok(rule, key, p.Exit, "returns getRemoteIP(req)")
+		} else {
+			c.bad(rule, key, p.Exit, "without a parser GetClientIP does not return getRemoteIP(req)", p, at)
+		}
+	})
 }
